@@ -19,6 +19,10 @@ pub enum Op16
     Add(u8, u8),
     /// Remove a subset of `e`'s triggers from reactor `r`.
     Remove(u8, u8, Which),
+    /// One removal bundle spanning both entities: reactor `r`, the bundle names entity `.1` first and the other entity
+    /// second; `Which::First` = the first trigger kind of the reactor for both entities, `Second` = the second kind,
+    /// `Both` = every trigger of both entities.
+    RemoveMulti(u8, u8, Which),
     FireMutation(u8),
     FireEntityEvent(u8),
     FireInsertion(u8),
@@ -40,6 +44,7 @@ pub fn all_ops16() -> Vec<Op16>
         {
             v.push(Op16::Add(r, e));
             for w in [Which::First, Which::Second, Which::Both] { v.push(Op16::Remove(r, e, w)); }
+            for w in [Which::First, Which::Second, Which::Both] { v.push(Op16::RemoveMulti(r, e, w)); }
         }
         v.push(Op16::FireMutation(e));
         v.push(Op16::FireEntityEvent(e));
@@ -170,6 +175,11 @@ impl Model16
                     if matches!(w, Which::Second | Which::Both) { self.regs[ri][ei][1] = 0; }
                     if self.tracked[ei] && self.regs[ri][ei] == [0, 0] { self.local[ri][ei] = None; }
                 }
+            }
+            Op16::RemoveMulti(r, e, w) =>
+            {
+                // same as removing the named triggers of each entity in turn (a dead entity is skipped)
+                for ent in [e, 1 - e] { let _ = self.apply(Op16::Remove(r, ent, w)); }
             }
             Op16::FireMutation(e) =>
             {
@@ -322,6 +332,32 @@ pub fn run16(hist: &[Op16]) -> StepResult<Key16>
                                 Which::First => { reactor.remove(&mut c, entity_mutation::<CA>(ent)); }
                                 Which::Second => { reactor.remove(&mut c, entity_insertion::<CA>(ent)); }
                                 Which::Both => { reactor.remove(&mut c, (entity_mutation::<CA>(ent), entity_insertion::<CA>(ent))); }
+                            }
+                        });
+                    }
+                }
+                Op16::RemoveMulti(r, e, w) =>
+                {
+                    let (a, b) = (ents[e as usize], ents[1 - e as usize]);
+                    if r == 1
+                    {
+                        world.syscall((a, b, w), |In((a, b, w)): In<(Entity, Entity, Which)>, mut c: Commands, reactor: EntityReactor<ER1>| {
+                            match w
+                            {
+                                Which::First => { reactor.remove(&mut c, (entity_mutation::<CA>(a), entity_mutation::<CA>(b))); }
+                                Which::Second => { reactor.remove(&mut c, (entity_event::<EvA>(a), entity_event::<EvA>(b))); }
+                                Which::Both => { reactor.remove(&mut c, (entity_mutation::<CA>(a), entity_event::<EvA>(a), entity_mutation::<CA>(b), entity_event::<EvA>(b))); }
+                            }
+                        });
+                    }
+                    else
+                    {
+                        world.syscall((a, b, w), |In((a, b, w)): In<(Entity, Entity, Which)>, mut c: Commands, reactor: EntityReactor<ER2>| {
+                            match w
+                            {
+                                Which::First => { reactor.remove(&mut c, (entity_mutation::<CA>(a), entity_mutation::<CA>(b))); }
+                                Which::Second => { reactor.remove(&mut c, (entity_insertion::<CA>(a), entity_insertion::<CA>(b))); }
+                                Which::Both => { reactor.remove(&mut c, (entity_mutation::<CA>(a), entity_insertion::<CA>(a), entity_mutation::<CA>(b), entity_insertion::<CA>(b))); }
                             }
                         });
                     }
